@@ -421,9 +421,11 @@ class DiffCheck:
         self.tier, self.seed = a.tier, seed
         rng = splitmix(seed)
         pid = self.id
-        tmp = os.path.join(BUILD, 'run', pid)
+        tmp = os.path.join(BUILD, 'run', '%s_%d' % (pid, os.getpid()))   # per process: concurrent runs must not share case files
         shutil.rmtree(tmp, ignore_errors=True)
         os.makedirs(tmp, exist_ok=True)
+        import atexit
+        atexit.register(lambda: shutil.rmtree(tmp, ignore_errors=True))
         violations = []          # dicts: kind, message, case, model_out, impl_out
         notes = []
         ev = dict(property_id=pid, tier=a.tier if a.tier in ('quick', 'thorough') else 'quick', seed=seed, level='proof')
